@@ -87,6 +87,9 @@ class DecisionInterp:
         self.max_depth = max_depth
         self.rows = []
         self.functions_seen = []
+        self.cur_func = None
+        self.cur_depth = 0
+        self.inlined = []
 
     # -- element predicates (status of ONE dependency) -----------------
 
@@ -174,6 +177,11 @@ class DecisionInterp:
                 mem = cname[3:].upper()
                 if mem in LETTER:
                     return self._task_is(state, LETTER[mem])
+            res = self._inline_predicate(expr, state, roles)
+            if res is not None:
+                return res
+        if isinstance(expr, ast.Constant) and isinstance(expr.value, bool):
+            return ([state], []) if expr.value else ([], [state])
         if isinstance(expr, ast.Compare) and len(expr.ops) == 1:
             left, op, right = expr.left, expr.ops[0], expr.comparators[0]
             # name is None / is not None
@@ -209,6 +217,86 @@ class DecisionInterp:
                     tru, fal = self._task_is(state, LETTER[mem])
                     return fal, tru
         raise Imprecise(f'condition not understood: {txt(expr)}')
+
+    def _inline_predicate(self, call, state, roles):
+        '''A call of a repo helper used as a condition
+        (`cls.deps_settled(deps, hard_deps, env)`): the helper's body is
+        interpreted as a predicate with the roles bound through the ACTUAL
+        argument positions / keywords (so a swapped argument order is
+        seen).  Returns (true states, false states) or None.'''
+        if self.cur_func is None or self.cur_depth >= self.max_depth:
+            return None
+        cands, how = self.program.resolve_call(self.cur_func, call)
+        if len(cands) != 1 or how == 'by-unique-name':
+            return None
+        callee = cands[0]
+        params = [p for p in callee.params if p not in ('cls', 'self')]
+        bind = {}
+        for par, arg in zip(params, call.args):
+            if isinstance(arg, ast.Starred):
+                return None
+            bind[txt(arg)] = par
+        for kwd in call.keywords:
+            if kwd.arg is None:
+                return None
+            bind[txt(kwd.value)] = kwd.arg
+        if not ({roles.deps, roles.hard, roles.task} & set(bind)):
+            return None
+        nroles = Roles(bind.get(roles.task), bind.get(roles.deps),
+                       bind.get(roles.hard), bind.get(roles.env),
+                       roles.cls_names)
+        self.inlined.append(callee.key)
+        if callee.key not in self.functions_seen:
+            self.functions_seen.append(callee.key)
+        saved = (self.cur_func, self.cur_depth)
+        self.cur_func, self.cur_depth = callee, self.cur_depth + 1
+        try:
+            trues, falses, pending = self._pred_block(
+                callee, callee.node.body, nroles, [state])
+        finally:
+            self.cur_func, self.cur_depth = saved
+        # falling off the end returns None: falsy
+        return trues, falses + pending
+
+    def _pred_block(self, func, stmts, roles, states):
+        trues, falses = [], []
+        for stmt in stmts:
+            if not states:
+                break
+            nxt = []
+            for st in states:
+                if isinstance(stmt, ast.Expr):
+                    nxt.append(st)           # docstring, logging
+                elif isinstance(stmt, ast.Pass):
+                    nxt.append(st)
+                elif isinstance(stmt, ast.Return):
+                    val = stmt.value
+                    if val is None or (isinstance(val, ast.Constant) and
+                                       val.value is None):
+                        falses.append(st)
+                    else:
+                        tru, fal = self.cond(val, st, roles)
+                        trues += tru
+                        falses += fal
+                elif isinstance(stmt, ast.If):
+                    tru, fal = self.cond(stmt.test, st, roles)
+                    for sub in tru:
+                        sub.trace.append(f'{txt(stmt.test)[:60]} -> true')
+                    for sub in fal:
+                        sub.trace.append(f'{txt(stmt.test)[:60]} -> false')
+                    t1, f1, p1 = self._pred_block(func, stmt.body, roles,
+                                                  tru)
+                    t2, f2, p2 = self._pred_block(func, stmt.orelse, roles,
+                                                  fal)
+                    trues += t1 + t2
+                    falses += f1 + f2
+                    nxt += p1 + p2
+                else:
+                    raise Imprecise(f'predicate helper {func.qual}: '
+                                    f'statement not understood: '
+                                    f'{txt(stmt)[:50]}')
+            states = nxt
+        return trues, falses, states
 
     @staticmethod
     def _prune_clock(states):
@@ -304,6 +392,8 @@ class DecisionInterp:
                           'node': node})
 
     def _stmt(self, func, stmt, roles, state, depth):
+        self.cur_func = func
+        self.cur_depth = depth
         if isinstance(stmt, ast.Expr):
             val = stmt.value
             if isinstance(val, ast.Constant):
